@@ -8,12 +8,12 @@ Open Scope nat_scope.
 
 (** ---- [lookup_x] with the default policy is [lookup] ---- *)
 Lemma from_cache_x_default lower is_space sup valid s cfg sni ip :
-  from_cache_x lower is_space (select_cert sup valid) s cfg sni ip =
+  from_cache_x lower is_space (select_cert sup valid) true s cfg sni ip =
   from_cache lower is_space sup valid s cfg sni ip.
 Proof. reflexivity. Qed.
 
 Theorem lookup_x_default lower is_space sup valid s cap cfg sni ip e :
-  fst (lookup_x lower is_space (select_cert sup valid) s cap cfg sni ip e) =
+  fst (lookup_x lower is_space (select_cert sup valid) true s cap cfg sni ip e) =
   lookup lower is_space sup valid s cap cfg sni ip (env_of lower is_space cfg ip e).
 Proof.
   unfold lookup_x, lookup, env_of. rewrite from_cache_x_default.
@@ -61,10 +61,11 @@ Section Generic.
 
   (** the names tried, in order, each with the "matched" flag its success carries
       (false = "defaulted": the configured default or fallback name) *)
-  Definition tried (cfg : config) (sni ip : str) : list (name * bool) :=
+  Definition tried (conn : bool) (cfg : config) (sni ip : str) : list (name * bool) :=
     let n := normalize sni in
     (if is_nil n
-     then (ip, true) :: (if is_nil (default_name cfg) then [] else [(normalize (default_name cfg), false)])
+     then (if conn then [(ip, true)] else []) ++
+          (if is_nil (default_name cfg) then [] else [(normalize (default_name cfg), false)])
      else map (fun m => (m, true)) (n :: wildcard_candidates n)) ++
     (if is_nil (fallback_name cfg) then [] else [(normalize (fallback_name cfg), false)]).
 
@@ -83,12 +84,16 @@ Section Generic.
   Qed.
 
   (** F: getCertificateFromCache = the first name, in that order, that selectCert accepts *)
-  Theorem from_cache_x_first_tried s cfg sni ip :
-    from_cache_x s cfg sni ip = first_tried s (tried cfg sni ip).
+  Theorem from_cache_x_first_tried conn s cfg sni ip :
+    from_cache_x conn s cfg sni ip = first_tried s (tried conn cfg sni ip).
   Proof.
     unfold Model.from_cache_x, tried, try_fallback_x.
     destruct (is_nil (normalize sni)).
-    - cbn [app first_tried]. destruct (sel s ip); [reflexivity|].
+    - assert (H : forall rest, first_tried s ((if conn then [(ip, true)] else []) ++ rest) =
+                  match (if conn then sel s ip else None) with
+                  | Some c => Some (c, true, ip) | None => first_tried s rest end).
+      { intros rest. destruct conn; cbn [app first_tried]; [destruct (sel s ip)|]; reflexivity. }
+      rewrite <- app_assoc, H. destruct (if conn then sel s ip else None); [reflexivity|].
       destruct (is_nil (default_name cfg)); cbn [app first_tried].
       + destruct (is_nil (fallback_name cfg)); cbn [first_tried]; [reflexivity|].
         destruct (sel s (normalize (fallback_name cfg))); reflexivity.
@@ -119,21 +124,22 @@ Section Generic.
   Qed.
 
   (** ---- the tail of getCertDuringHandshake ---- *)
+  Notation from_cache_c := (Model.from_cache_x lower is_space sel).
   Definition load_ok (cap : nat) (s : state) (cfg : config) (ip : str) (e : envx) (x : stored) : Prop :=
     exists nm, hello_name lower is_space cfg ip (x_idna e) = Some nm /\
                subject_qualifies is_space nm = true /\
                almost_full cap (length (cache s)) = true /\
                load_from_storage (x_storage e) (x_broken e) nm = Some x.
 
-  Lemma lookup_x_cases s cap cfg sni ip e c s' :
-    lookup_x s cap cfg sni ip e = (ROk c, s') ->
-    (exists b v, from_cache_x s cfg sni ip = Some (c, b, v)) \/
+  Lemma lookup_x_cases conn s cap cfg sni ip e c s' :
+    lookup_x conn s cap cfg sni ip e = (ROk c, s') ->
+    (exists b v, from_cache_x conn s cfg sni ip = Some (c, b, v)) \/
     (exists x, load_ok cap s cfg ip e x /\ sd_fresh x = true /\ c = sd_cert x /\
                s' = add_cert cap c (x_victim e) s /\
-               forall c' v, from_cache_x s cfg sni ip <> Some (c', true, v)).
+               forall c' v, from_cache_x conn s cfg sni ip <> Some (c', true, v)).
   Proof.
     unfold Model.lookup_x.
-    destruct (from_cache_x s cfg sni ip) as [[[c0 b] v]|] eqn:Ef.
+    destruct (from_cache_x conn s cfg sni ip) as [[[c0 b] v]|] eqn:Ef.
     - destruct b.
       + intros H; injection H as <- <-. left; eauto.
       + destruct (hello_name lower is_space cfg ip (x_idna e)) as [nm|] eqn:En; [|discriminate].
@@ -158,15 +164,15 @@ Section Generic.
   (** what a lookup does to the cache: nothing, or -- only when the cache is almost full and a
       certificate for the name is in storage -- it caches that certificate (evicting if necessary),
       and removes it again if it cannot be maintained *)
-  Lemma lookup_x_post s cap cfg sni ip e :
-    snd (lookup_x s cap cfg sni ip e) = s \/
+  Lemma lookup_x_post conn s cap cfg sni ip e :
+    snd (lookup_x conn s cap cfg sni ip e) = s \/
     exists x, load_ok cap s cfg ip e x /\
-      snd (lookup_x s cap cfg sni ip e) =
+      snd (lookup_x conn s cap cfg sni ip e) =
       (if sd_fresh x then add_cert cap (sd_cert x) (x_victim e) s
        else remove_cert (sd_cert x) (add_cert cap (sd_cert x) (x_victim e) s)).
   Proof.
     unfold Model.lookup_x.
-    set (other := from_cache_x s cfg sni ip).
+    set (other := from_cache_x conn s cfg sni ip).
     assert (Hmain :
       snd (match hello_name lower is_space cfg ip (x_idna e) with
            | None => (RErr, s)
@@ -201,19 +207,19 @@ Section Generic.
     destruct other as [[[c0 b] v]|]; [destruct b; [left; reflexivity | exact Hmain] | exact Hmain].
   Qed.
 
-  Lemma lookup_x_unchanged s cap cfg sni ip e :
-    almost_full cap (length (cache s)) = false -> snd (lookup_x s cap cfg sni ip e) = s.
+  Lemma lookup_x_unchanged conn s cap cfg sni ip e :
+    almost_full cap (length (cache s)) = false -> snd (lookup_x conn s cap cfg sni ip e) = s.
   Proof.
-    intros Ha. destruct (lookup_x_post s cap cfg sni ip e) as [H|(x & (nm & _ & _ & Ha' & _) & _)]; [exact H | congruence].
+    intros Ha. destruct (lookup_x_post conn s cap cfg sni ip e) as [H|(x & (nm & _ & _ & Ha' & _) & _)]; [exact H | congruence].
   Qed.
 
   (** the cache invariant of C12 survives every lookup *)
-  Theorem lookup_x_inv names_of s cap cfg sni ip e :
+  Theorem lookup_x_inv names_of conn s cap cfg sni ip e :
     Inv names_of cap s ->
     (forall k x, alookup k (x_storage e) = Some x -> wf_cert names_of (sd_cert x)) ->
-    Inv names_of cap (snd (lookup_x s cap cfg sni ip e)).
+    Inv names_of cap (snd (lookup_x conn s cap cfg sni ip e)).
   Proof.
-    intros HI Hst. destruct (lookup_x_post s cap cfg sni ip e) as [->|(x & (nm & _ & _ & _ & Hl) & ->)]; [exact HI|].
+    intros HI Hst. destruct (lookup_x_post conn s cap cfg sni ip e) as [->|(x & (nm & _ & _ & _ & Hl) & ->)]; [exact HI|].
     assert (Hwf : wf_cert names_of (sd_cert x)).
     { apply load_from_storage_key in Hl. destruct Hl as [k Hk]. eapply Hst; eauto. }
     destruct (sd_fresh x).
@@ -330,11 +336,11 @@ Section Policy.
       default, fallback -- for which it accepted a choice, offered the certificates listed under
       that name or else all cached ones: a certificate of the cache; or it is the certificate
       just loaded from storage *)
-  Theorem custom_selector_scope lower is_space p s cfg sni ip e c s' :
+  Theorem custom_selector_scope lower is_space p conn s cfg sni ip e c s' :
     Inv s ->
-    lookup_x lower is_space (sel_policy sup valid p) s cap cfg sni ip e = (ROk c, s') ->
+    lookup_x lower is_space (sel_policy sup valid p) conn s cap cfg sni ip e = (ROk c, s') ->
     (alookup (c_hash c) (cache s) = Some c /\
-     exists pre v b post, tried lower is_space cfg sni ip = pre ++ (v, b) :: post /\
+     exists pre v b post, tried lower is_space conn cfg sni ip = pre ++ (v, b) :: post /\
        Forall (fun q => sel_policy sup valid p s (fst q) = None) pre /\
        sel_policy sup valid p s v = Some c /\
        (p <> PDefault -> In c (choices_for s v))) \/
@@ -364,12 +370,12 @@ Section DefaultX.
       / the fallback name; or the certificate loaded from storage in the almost-full branch, which
       lists a name covering the (IDNA form of the) requested name, exactly or with its first label
       replaced by "*" *)
-  Theorem lookup_x_sound s cfg sni ip e c s' :
+  Theorem lookup_x_sound conn s cfg sni ip e c s' :
     Inv s -> storage_wf (x_storage e) ->
-    lookup_d s cap cfg sni ip e = (ROk c, s') ->
+    lookup_d conn s cap cfg sni ip e = (ROk c, s') ->
     (alookup (c_hash c) (cache s) = Some c /\
      ((normalize sni <> [] /\ exists san, In san (c_names c) /\ covers san (normalize sni)) \/
-      (normalize sni = [] /\ In ip (c_names c)) \/
+      (normalize sni = [] /\ conn = true /\ In ip (c_names c)) \/
       (normalize sni = [] /\ default_name cfg <> [] /\ In (normalize (default_name cfg)) (c_names c)) \/
       (fallback_name cfg <> [] /\ In (normalize (fallback_name cfg)) (c_names c)))) \/
     (almost_full cap (length (cache s)) = true /\
@@ -379,26 +385,31 @@ Section DefaultX.
                   exists san, In san (c_names c) /\ covers san nm).
   Proof.
     intros HI Hwf H.
-    assert (H1 : fst (lookup_d s cap cfg sni ip e) = ROk c) by (rewrite H; reflexivity).
-    rewrite lookup_x_default in H1.
-    destruct (lookup_sound lower is_space sup valid names_of cap s cfg sni ip _ c HI H1) as [Hc|_]; [left; exact Hc|].
     apply lookup_x_cases in H. destruct H as [(b & v & Hf)|(x & (nm & Hn & Hq & Ha & Hl) & Hfr & Hc & _)].
-    - (* cannot happen together with the loaded branch, but the cache clause holds anyway *)
-      left. rewrite from_cache_x_default in Hf. apply from_cache_some in Hf.
-      destruct Hf as [c m pre post Hn Hc Hpre Hs|c Hn Hs|c Hn Hip Hd Hs|c Hnone Hfb Hs];
-        destruct (select_some _ _ _ _ _ _ _ HI Hs) as (Hcached & Hlisted & _ & _); (split; [exact Hcached|]).
-      + left. split; [exact Hn|]. exists m. split; [exact Hlisted|]. apply candidates_cover.
-        unfold name in *. rewrite Hc. apply in_or_app. right. left. reflexivity.
-      + right. left. auto.
-      + right. right. left. auto.
-      + right. right. right. auto.
+    - left. rewrite from_cache_x_first_tried in Hf. apply first_tried_some in Hf.
+      destruct Hf as (pre & post & Ht & _ & Hs).
+      destruct (select_some _ _ _ _ _ _ _ HI Hs) as (Hcached & Hlisted & _ & _). split; [exact Hcached|].
+      assert (Hin : In (v, b) (tried lower is_space conn cfg sni ip))
+        by (rewrite Ht; apply in_or_app; right; left; reflexivity).
+      unfold tried in Hin. apply in_app_or in Hin. destruct Hin as [Hin|Hin].
+      + destruct (is_nil (normalize sni)) eqn:En.
+        * apply is_nil_true in En. apply in_app_or in Hin. destruct Hin as [Hin|Hin].
+          -- destruct conn; [|destruct Hin]. destruct Hin as [Heq|[]]. injection Heq as <- <-.
+             right; left. auto.
+          -- destruct (is_nil (default_name cfg)) eqn:Ed; [destruct Hin|]. destruct Hin as [Heq|[]].
+             injection Heq as <- <-. right; right; left. apply is_nil_false in Ed. auto.
+        * apply is_nil_false in En. apply in_map_iff in Hin. destruct Hin as (m & Heq & Hm).
+          injection Heq as <- <-. left. split; [exact En|]. exists m. split; [exact Hlisted|].
+          apply candidates_cover. exact Hm.
+      + destruct (is_nil (fallback_name cfg)) eqn:Ef; [destruct Hin|]. destruct Hin as [Heq|[]].
+        injection Heq as <- <-. right; right; right. apply is_nil_false in Ef. auto.
     - right. split; [exact Ha|]. exists nm, x. repeat split; try assumption.
       subst c. eapply loaded_covers; eauto.
   Qed.
 
   (** a lookup changes the cache only in the almost-full branch *)
-  Theorem lookup_x_touches_only_when_almost_full s cfg sni ip e :
-    almost_full cap (length (cache s)) = false -> snd (lookup_d s cap cfg sni ip e) = s.
+  Theorem lookup_x_touches_only_when_almost_full conn s cfg sni ip e :
+    almost_full cap (length (cache s)) = false -> snd (lookup_d conn s cap cfg sni ip e) = s.
   Proof. apply lookup_x_unchanged. Qed.
 End DefaultX.
 
@@ -412,12 +423,12 @@ Lemma qualify_conds_today :
 Proof. reflexivity. Qed.
 
 (** a name that does not qualify is refused unless the cache has a match: no default, no fallback *)
-Theorem unqualified_refused lower is_space sel s cap cfg sni ip e nm :
+Theorem unqualified_refused lower is_space sel conn s cap cfg sni ip e nm :
   hello_name lower is_space cfg ip (x_idna e) = Some nm -> subject_qualifies is_space nm = false ->
-  (forall c v, from_cache_x lower is_space sel s cfg sni ip <> Some (c, true, v)) ->
-  lookup_x lower is_space sel s cap cfg sni ip e = (RErr, s).
+  (forall c v, from_cache_x lower is_space sel conn s cfg sni ip <> Some (c, true, v)) ->
+  lookup_x lower is_space sel conn s cap cfg sni ip e = (RErr, s).
 Proof.
   intros Hn Hq Hnm. unfold lookup_x. rewrite Hn, Hq. cbn [negb].
-  destruct (from_cache_x lower is_space sel s cfg sni ip) as [[[c b] v]|] eqn:E; [|reflexivity].
+  destruct (from_cache_x lower is_space sel conn s cfg sni ip) as [[[c b] v]|] eqn:E; [|reflexivity].
   destruct b; [|reflexivity]. exfalso. eapply Hnm; reflexivity.
 Qed.
